@@ -358,9 +358,14 @@ def cmd_check(args):
             for k, v in (r.get("probes") or {}).items():
                 fired[k] = fired.get(k, 0) + v
         dead = [k for k in c.get("required_probes", []) if not fired.get(k)]
-        if dead and exit_code == 0:
+        budget = sum(part["runs"][tier] for part in c["parts"])
+        if dead and exit_code == 0 and len(all_recs) * 2 >= budget:
             exit_code = 2
             lines.append("HARNESS-PROBLEM property=%s probes stuck at zero (part of the check did not run): %s" % (pid, ", ".join(dead)))
+        elif dead and exit_code == 0:
+            # the wall cap cut the batch to less than half its budget (loaded machine): a rare probe at zero then says nothing
+            lines.append("NOTE property=%s only %d of %d runs fitted into the wall cap; probes not reached in this short batch: %s" % (
+                pid, len(all_recs), budget, ", ".join(dead)))
     if nondet and exit_code == 0:
         exit_code = 2
         for r in nondet[:5]:
